@@ -272,7 +272,7 @@ static Mode modeOf(const std::string & m)
 {
 	Mode r;
 	r.minOps = 50; r.maxOps = 200;
-	r.wEnq = 44; r.wProc1 = 8; r.wProc = 5; r.wPif = 15; r.wClear = 2; r.wEmptyQ = 3; r.wLis = 14; r.wFire = 6; r.wEnum = 3;
+	r.wEnq = 44; r.wProc1 = 8; r.wProc = 5; r.wPif = 15; r.wClear = 1; r.wEmptyQ = 3; r.wLis = 14; r.wFire = 6; r.wEnum = 3;
 	r.pNested = 12; r.pDecline = 25;
 	if(m == "pif") { r.wPif = 26; r.wProc = 3; r.wProc1 = 5; r.wLis = 10; r.wFire = 3; r.wEnq = 46; r.wEnum = 2; r.pDecline = 45; }
 	else if(m == "route") { r.wLis = 30; r.wFire = 16; r.wEnum = 8; r.wEnq = 26; r.wPif = 8; r.wProc1 = 4; r.wProc = 3; }
@@ -614,11 +614,12 @@ struct WorldBase : HSink
 		return r;
 	}
 
+	int pickKey() { if(NK < 3) return 0; const uint32_t c = rng.below(10); return c < 5 ? 0 : c < 8 ? 1 : 2; }
 	void nested() {
 		if(! hasQueue || dead || nestedBudget <= 0 || ! rng.chance((uint32_t)mode.pNested, 100)) return;
 		--nestedBudget;
 		count("nested_enqueues");
-		vGen(true, (int)rng.below((uint32_t)NK), true);
+		vGen(true, pickKey(), true);
 	}
 
 	// model side of one enqueue / direct dispatch; the library call follows
@@ -775,19 +776,19 @@ struct WorldBase : HSink
 	// ---------------------------------------------------------------- generation
 	void listenerOp(int ki) {
 		const uint32_t c = rng.below(100);
-		if(c < 62 && lis.size() < 60) vAdd(ki, (int)rng.below(NFTYPES));
+		if(c < 58 && lis.size() < 120) vAdd(ki, (int)rng.below(NFTYPES));
 		else if(c < 92) doRemove(ki);
 		else doEmpty(ki);
 	}
 	void step() {
 		if(dead) return;
 		nestedBudget = 4;
-		const int ki = (int)rng.below((uint32_t)NK);
+		const int ki = pickKey();
 		if(hasQueue) {
 			const int wPif = mode.noPif ? 0 : mode.wPif;
 			const int total = mode.wEnq + mode.wProc1 + mode.wProc + wPif + mode.wClear + mode.wEmptyQ + mode.wLis + mode.wFire + mode.wEnum;
 			int c = (int)rng.below((uint32_t)total);
-			if((c -= mode.wEnq) < 0) { const int n = rng.chance(1, 4) ? 1 + (int)rng.below(6) : 1; for(int i = 0; i < n && ! dead; ++i) vGen(true, (int)rng.below((uint32_t)NK), false); }
+			if((c -= mode.wEnq) < 0) { const int n = rng.chance(1, 4) ? 1 + (int)rng.below(6) : 1; for(int i = 0; i < n && ! dead; ++i) vGen(true, pickKey(), false); }
 			else if((c -= mode.wProc1) < 0) doProcess(true);
 			else if((c -= mode.wProc) < 0) doProcess(false);
 			else if((c -= wPif) < 0) vProcessIf((int)rng.below(NPREDS));
@@ -808,8 +809,8 @@ struct WorldBase : HSink
 	void run(int nops) {
 		gSink = this;
 		// a few listeners first so that most events are observed when consumed
-		const int pre = (int)rng.below(12);
-		for(int i = 0; i < pre && ! dead; ++i) vAdd((int)rng.below((uint32_t)NK), (int)rng.below(NFTYPES));
+		const int pre = 4 + (int)rng.below(26);
+		for(int i = 0; i < pre && ! dead; ++i) { const int ki = pickKey(); const int ft = (int)rng.below(NFTYPES); vAdd(ki, ft); }
 		for(int i = 0; i < nops && ! dead; ++i) { step(); quiescent(); }
 		if(! dead) {
 			// final: one exact-prototype listener per (key, prototype) so that every remaining event is observed, then drain
@@ -985,10 +986,13 @@ struct World : WorldBase
 		if(events.size() >= 30000) return;
 		const int id = (int)events.size();
 		constexpr bool all = Enq || ! C::hasQueue;
-		uint32_t s = rng.below(16);
-		if(! all) s |= 1u;
+		static const int base[NKINDS] = { 0, 1, 5, 8, 10, 12, 14 }, cnt[NKINDS] = { 1, 4, 3, 2, 2, 2, 2 };
+		static const int reduced[16] = { 0, 1, 3, 3, 1, 5, 7, 7, 9, 9, 11, 11, 13, 13, 15, 15 };
+		const int k = (int)rng.below(NKINDS);
+		int s = base[k] + (int)rng.below((uint32_t)cnt[k]);
+		if(! all) s = reduced[s];
 		switch(s) {
-		case 0: if constexpr (all) emit<Enq, true>(ki, KV, id, inside); break;
+		case 0: emit<Enq, true>(ki, KV, id, inside); break;
 		case 1: { int v = id; emit<Enq, false>(ki, KI, id, inside, v); lvalueCheck(v == id, "int"); break; }
 		case 2: if constexpr (all) emit<Enq, true>(ki, KI, id, inside, id + 0); break;
 		case 3: emit<Enq, true>(ki, KI, id, inside, (short)id); break;
